@@ -1,0 +1,29 @@
+//go:build verif
+
+// Contracts for utils.GetModuleForObjectTypeRelation (property C07, clause P6), checked by govc.
+// Comments and import anchors only; compiled only with -tags verif.
+package utils
+
+import (
+	openfgav1 "github.com/openfga/api/proto/openfga/v1"
+)
+
+var _ *openfgav1.TypeDefinition
+
+// C07: "each relation added by an extension [is] attributed to the extending module (also via
+// GetModuleForObjectTypeRelation)": the lookup fails exactly when the relation is not a relation of the type, and
+// otherwise answers the module recorded on the relation if there is one, else the module of the type.
+
+//@ spec relModule(t *openfgav1.TypeDefinition, r string) string =
+//@   t.GetMetadata().GetRelations()[r].GetModule()
+
+//@ func GetModuleForObjectTypeRelation
+//@   props C07
+//@   readonly
+//@   ensures error_iff_absent:  (err != nil) <==> !has(typeDef.GetRelations(), relation)
+//@   ensures error_empty:       err != nil ==> result0 == ""
+//@   ensures relation_module:   err == nil && relModule(typeDef, relation) != "" ==> result0 == relModule(typeDef, relation)
+//@   ensures type_module:       err == nil && relModule(typeDef, relation) == "" ==> result0 == typeDef.GetMetadata().GetModule()
+//@   ensures nil_type_rejected: typeDef == nil ==> err != nil
+//@   -- no `cover` clauses: the solvers answer `unknown` on satisfiability queries over the quantified heap axioms
+//@   -- (even `cover err == nil`), see NOTES.md
